@@ -61,6 +61,8 @@ func HashName(field string) string {
 	parts := strings.Split(trimmed, ".")
 	hashedParts := make([]string, len(parts))
 	for i, part := range parts {
+		// "$cmd" in "db.$cmd.aggregate" and in "$cmd.aggregate" is the same name
+		part = strings.TrimLeft(part, "$")
 		h := sha256.Sum256([]byte(part))
 		hashed := fmt.Sprintf("%s_%x", redactedString, h[:8])
 		RedactedFieldMapping[part] = hashed
